@@ -250,7 +250,7 @@ def pt_post(c, p):
 Q(name="e2_sendbuf_poll_transmit", props=["C01"], func=r"send_buffer\.rs[^>]*>::poll_transmit$",
   inline=[r"VarInt::size$", r"VarInt::from_u64_unchecked$"], pure=[r"RangeSet::pop_min"],
   modifies=lambda c: {r"RangeSet::insert": [_sb(c, "retransmits")]},
-  functions=["SendBuffer::poll_transmit", "VarInt::size"], pre=pt_pre, post=pt_post,
+  functions=["SendBuffer::poll_transmit", "VarInt::size"], pre=pt_pre, post=pt_post, timeout=900,
   bounds="every buffer state unsent <= offset < 2^62, 17 <= max_len <= 2^20, retransmit queue head = None or any non-empty range below `unsent` (RangeSet::pop_min / insert opaque)",
   replay=("sendbuf_poll_transmit_retransmit_native", lambda m: dict(
       offset=m.get("|in:*_1.2|", 0), unsent=m.get("|in:*_1.3|", 0), max_len=m.get("|in:_2|", 17),
@@ -341,15 +341,25 @@ def tok_post(c, p):
     if adds and eqs:
         # the lifetime that was added to `issued` is the RETRY lifetime
         arg = adds[0][1][1][1]
-        conj.append(imp(and_(some, eq(kind, bv(0))), "true" if st.alias.get(arg) == _sc(c, "retry_token_lifetime") else "false"))
+        conj.append(imp(and_(some, eq(kind, bv(0))), "true" if arg == _sc(c, "retry_token_lifetime") else "false"))
     # --- NEW_TOKEN tokens: never an error; validated needs IP equality, lifetime and the reuse log
     val_ok = "false"
     if logs:
         log_ok = eq(c.ex.read_key(st, logs[0][2] + "#discr", I64).t, bv(0))
-        ip_ok = raws[0][2] if raws else "false"
+        # IpAddr equality between the token's address and the source address of the packet (byte-wise, both families)
+        tip, rip = root + "@Some.0.0@Validation.0", "_3"
+        rk = lambda k, srt: c.ex.read_key(st, k, srt).t
+        td, rd_ = rk(tip + "#discr", I64), rk(rip + "#discr", I64)
+        v4 = and_(*[eq(rk(tip + "@V4.0.0[%d]" % i, U8), rk(rip + "@V4.0.0.0[%d]" % i, U8)) for i in range(4)])
+        v6 = and_(*[eq(rk(tip + "@V6.0.0[%d]" % i, U8), rk(rip + "@V6.0.0.0[%d]" % i, U8)) for i in range(16)])
+        ip_ok = and_(eq(td, rd_), ite(eq(td, bv(0)), v4, v6))
+        # the reuse log is asked about THIS token: its nonce, its issue time, the configured lifetime
+        la = logs[0][1]
+        conj.append("true" if (la[1][0] == "val" and la[1][1].t == "|in:%s@Some.0.1|" % root and la[2] == ("agg", root + "@Some.0.0@Validation.1")
+                               and la[3][0] == "agg" and la[3][1].startswith(_sc(c, "validation_token"))) else "false")
         val_ok = and_(ip_ok, not_(expired) if expired is not None else "false", log_ok)
         arg = adds[0][1][1][1]
-        conj.append(imp(and_(some, eq(kind, bv(1))), "true" if st.alias.get(arg, "").startswith(_sc(c, "validation_token")) else "false"))
+        conj.append(imp(and_(some, eq(kind, bv(1))), "true" if arg.startswith(_sc(c, "validation_token")) else "false"))
     conj.append(imp(and_(some, eq(kind, bv(1))), and_(not_(is_err), eq(validated, val_ok))))
     return and_(*conj)
 
